@@ -200,19 +200,20 @@ def consistentlyWound (ms : List Poly) : Bool :=
     ms.all (fun p => dirSign p.ext == d && p.ints.all (fun h => dirSign h == -d))
 
 def handleUnary (inp out : List String) : String :=
-  let pin : P (Rat × List Poly) := do
+  let pin : P (Rat × List (Geom × List Poly)) := do
     let u ← rat
-    let gs ← counted geometry
-    let ps ← (gs.mapM (fun g => match g with | .polygon p => some p | _ => none) : Option (List Poly))
-    pure (u, ps)
+    let gs ← counted arealP
+    pure (u, gs)
   match P.run pin inp with
   | none => "ERR parse-input"
-  | some (u, ms) =>
-    if !(ms.all polyValid) then skip "invalid-operand" else
+  | some (u, bs) =>
+    -- every boppable a valid non-empty Polygon / MultiPolygon
+    if !(bs.all (fun (g, ps) => validGeom g && ps.all polyValid)) then skip "invalid-operand" else
+    let ms := bs.flatMap (·.2)
     if !consistentlyWound ms then skip "not-consistently-wound" else
     if u ≤ 0 then "ERR unit" else
     let rs := ms.flatMap Poly.rings
-    let tagsBase := "n=" ++ toString ms.length ++
+    let tagsBase := "n=" ++ toString ms.length ++ (match bs with | (g, _) :: _ => " of=" ++ kindTag g | [] => "") ++
       (match ms with | m :: _ => (if dirSign m.ext < 0 then " cw" else " ccw") | [] => "") ++
       (if hasRepeat rs then " repeated-vertex" else "") ++ (if u != 1 then " placed" else "")
     if out == ["panic"] then reply false "FAIL:panic" tagsBase "no-panic" "panic" else
@@ -221,7 +222,7 @@ def handleUnary (inp out : List String) : String :=
     | some o =>
       let E := recordedSingle o
       let subjM := rs.map ringToShapePath
-      let modelRes := unaryUnion E (ms.map (fun m => [m]))
+      let modelRes := unaryUnion E (bs.map (·.2))
       let same := o.subj == subjM && o.res == modelRes
       let (prop, cls) : String × String :=
         match bbox (allCoords rs) with
